@@ -1,10 +1,10 @@
 # Per-property configuration of the ./check driver and source of MANIFEST.json (tools/gen_manifest.py).
+# One JSON file per property under props.d/: kind (gotest|blackbox), pkg, test, files (relative to overlay/),
+# race (bool or {tier: bool}), shards {tier: n}, timeout {tier: seconds}, level, technique, level_text, level_note,
+# optional: env, gomaxprocs, ulimit_v_kb, needs_ollama, race_is_violation, race_filter, registered (false = not in MANIFEST).
+import glob, json, os
+_d = os.path.join(os.path.dirname(os.path.abspath(__file__)), "props.d")
+PROPS = {}
+for _f in sorted(glob.glob(os.path.join(_d, "*.json"))):
+    PROPS[os.path.basename(_f)[:-5]] = json.load(open(_f))
 NOT_APPLICABLE = {}
-
-PROPS = {
-    "C05": dict(kind="gotest", pkg="fs/ggml", test="TestVerifC05", files=["fs/ggml/c05_test.go"], race=False,
-                shards={"quick": 4, "thorough": 16}, timeout={"quick": 600, "thorough": 3000}, level="exploration",
-                technique="runtime differential monitor: real WriteGGUF -> real Decode + independent header reader over PRNG-generated KV/tensor sets (byte-exact tensor readback, alignment, end offset)",
-                level_text="Exploration: 4k (quick) / 400k (thorough) generated files per run, each written by the real writer and read back by the real decoder and by an independent 100-line reader; every tensor's bytes carry a unique PRNG stream so any misplacement is observed. Held-on-what-was-generated, not a proof.",
-                level_note="Trusts the kit's independent reader and the generator's size arithmetic (Tensor.Size of the code under test is used to size the data; an error there that is consistent between writer and decoder is not visible)."),
-}
